@@ -8,7 +8,7 @@ from vlib.runner import Unit, violation, call, Violation
 from vlib.repo import T, transform
 from checks.C14 import collapsed_model
 
-RULE = ("Hypothesis operation sequences (length <= 6 quick / 10 thorough) over root_attach, negra_mark_heads, mark_heads_by_rules(negra|ptb), "
+RULE = ("Hypothesis operation sequences (length <= 8 quick / 12 thorough) over root_attach, negra_mark_heads, mark_heads_by_rules(negra|ptb), "
         "boyd_split, raising, add_topnode, punctuation_verylow/_root/_symetrify(relc), binarize(bare_bin_labels), collapse_unary_chains, "
         "uncollapse_unary_chains on punctuation-rich trees (<=8/12 tokens). A drawn operation whose documented prerequisite does not hold on "
         "the actual tree is skipped (counted). After every applied step: returned node is the root of a well-formed tree (raw walk), words "
@@ -203,7 +203,7 @@ def gen(ctx):
         ctx.count(key=case, nontrivial=len(done) >= 2 and changed, classes=classes)
         if len(done) >= 4 and changed:
             ctx.sample({"ops": case["ops"], "applied": applied, "tree": case["tree"]["root"]}, cap=2)
-    ctx.hyp(sequence_case(8 if quick else 12, 6 if quick else 10), body, max_examples=1200 if quick else 6000)
+    ctx.hyp(sequence_case(8 if quick else 12, 8 if quick else 12), body, max_examples=1200 if quick else 6000)
 
 
 UNITS = [Unit("sequences", gen, check, shards=(4, 16))]
